@@ -745,7 +745,6 @@ type errRec struct {
 var lineRe = regexp.MustCompile(`line (\d+)`)
 var gotRe = regexp.MustCompile(`got '(.)'`)
 
-
 type errStats struct{ judged, withLine, noError, hookUsed int64 }
 
 var hookRemaining, hookLine, hookCalls int
